@@ -170,6 +170,14 @@ impl<'a> Encoder<'a> {
                 self.out.extend_from_slice(b);
             }
             (Ty::Boxed(t), v) => self.encode(t, v),
+            (Ty::Compressed, Val::Bytes(b)) => {
+                use std::io::Read;
+                let mut z = Vec::new();
+                flate2::read::DeflateEncoder::new(&b[..], flate2::Compression::default()).read_to_end(&mut z).unwrap();
+                self.var_u32(b.len() as u32);
+                self.var_u32(z.len() as u32);
+                self.out.extend_from_slice(&z);
+            }
             (Ty::Uuid, Val::Bytes(b)) => self.out.extend_from_slice(b),
             (Ty::Weekday, Val::U(x)) | (Ty::Month, Val::U(x)) => self.out.push(*x as u8),
             (Ty::FixedOffset, Val::I(x)) => {
